@@ -47,9 +47,9 @@ pub fn run_prop<T, S>(
     strategy: S,
     res: &mut ChunkResult,
     to_json: impl Fn(&T) -> Value,
-    test: impl Fn(&T, &mut CaseOut) -> Result<(), Fail>,
+    test: impl Fn(&T, &mut CaseOut) -> Result<(), Fail> + Sync,
 ) where
-    T: Debug,
+    T: Debug + Sync,
     S: Strategy<Value = T>,
 {
     // development aid: VERIF_CASES_SCALE=<percent> scales every case count
@@ -61,8 +61,15 @@ pub fn run_prop<T, S>(
     let result = runner.run(&strategy, |v| {
         let j = to_json(&v);
         ctx.note_current(&serde_json::json!({"check": check, "case": j}));
-        let mut out = CaseOut::default();
-        let r = test(&v, &mut out);
+        let (r, mut out, poisoned) = run_isolated(&test, &v);
+        if poisoned {
+            // known finding c14.panic-count-stuck-after-abandoned-unwind: whatever ran on that thread after the
+            // poisoning execution is not a judgement of the property
+            let mut a = acc.borrow_mut();
+            a.cases += 1;
+            a.class("discarded:os_thread_left_panicking_by_a_failed_execution");
+            return Ok(());
+        }
         if !*failed.borrow() {
             let mut a = acc.borrow_mut();
             a.cases += 1;
@@ -96,8 +103,12 @@ pub fn run_prop<T, S>(
         Ok(()) => {}
         Err(TestError::Fail(reason, minimal)) => {
             // recompute signature/what on the minimal value
-            let mut out = CaseOut::default();
-            let (sig, what) = match test(&minimal, &mut out) {
+            let (r, _out, poisoned) = run_isolated(&test, &minimal);
+            if poisoned {
+                res.class("discarded:os_thread_left_panicking_by_a_failed_execution");
+                return;
+            }
+            let (sig, what) = match r {
                 Err(f) => f,
                 Ok(()) => (String::new(), format!("failure did not reproduce on the shrunk value (flaky?); reported as: {reason}")),
             };
@@ -114,4 +125,22 @@ pub fn run_prop<T, S>(
 /// without shrinking, e.g. statistics)
 pub fn sample_one<S: Strategy>(runner: &mut proptest::test_runner::TestRunner, s: &S) -> S::Value {
     s.new_tree(runner).expect("strategy").current()
+}
+
+/// Runs one case on a fresh OS thread (Shuttle keeps per-thread state: continuation pool, panic hook config, and —
+/// through the known finding below — the thread's panic count). Returns the verdict, the case report and whether
+/// the thread was left "panicking" although no unwinding is in progress.
+pub fn run_isolated<T: Sync>(test: &(impl Fn(&T, &mut CaseOut) -> Result<(), Fail> + Sync), v: &T) -> (Result<(), Fail>, CaseOut, bool) {
+    std::thread::scope(|s| {
+        std::thread::Builder::new()
+            .stack_size(64 << 20)
+            .spawn_scoped(s, || {
+                let mut out = CaseOut::default();
+                let r = test(v, &mut out);
+                (r, out, std::thread::panicking())
+            })
+            .expect("spawn case thread")
+            .join()
+            .unwrap_or_else(|p| (Err((String::new(), format!("harness panic while deciding the case: {}", payload_str(&*p)))), CaseOut::default(), false))
+    })
 }
